@@ -1,4 +1,4 @@
-From Verif Require Import Lib.Base Mkvs.Trie Mkvs.BitsProofs Mkvs.AlistProofs Mkvs.TrieProofs Mkvs.Overlay Mkvs.OverlayProofs Mkvs.Key Mkvs.Iter Mkvs.IterProofs Mkvs.Lazy Mkvs.LazyProofs.
+From Verif Require Import Lib.Base Mkvs.Trie Mkvs.BitsProofs Mkvs.AlistProofs Mkvs.TrieProofs Mkvs.Overlay Mkvs.OverlayProofs Mkvs.Key Mkvs.Iter Mkvs.IterProofs Mkvs.Lazy Mkvs.LazyProofs Mkvs.IterLift Mkvs.Step Mkvs.StepProofs.
 
 (* C03 - MKVS tree and overlays behave as an ordered map.
    [s_run] = the model of the tree object (pending write log, Insert, Remove,
@@ -84,13 +84,10 @@ Proof. exact OverlayProofs.merge_iter_spec. Qed.
 Print Assumptions merged_iterator_sorted_complete.
 
 (* ---- the byte-level port of treeIterator.doNext (Mkvs/Iter.v; this is what the
-   correspondence runs evaluate).  FULL statement, open:
-     doNext_refines_seek : forall t k, wf t -> valid_bytes k ->
-                             port_iter k t = al_seek k (contents t).
-   Proved: the statement on every tree over a 10-key adversarial universe (1024
-   trees) and 23 seek keys, by exhaustive evaluation; and that the runner with
-   the ported iterator equals the specified runner wherever the port agrees
-   with the specification iterator. ---- *)
+   correspondence runs evaluate).  The general theorem doNext_refines_seek is at
+   the end of this file; the two statements below are the earlier finite-domain
+   instance (kept as a regression of the port by evaluation) and the conditional
+   bridge. ---- *)
 Theorem doNext_refines_seek_partial :
   forall ks k, In ks (sublists iter_universe) -> In k iter_seeks ->
     port_iter k (build_keys ks) = al_seek k (contents (build_keys ks)).
@@ -118,3 +115,47 @@ Theorem eviction_f1_refuted :
   contents (view (fst (lazy_commit (fun x => x) (lazy_insert [122] [9] f1_after)))) = [([98], [2]); ([122], [9])].
 Proof. exact LazyProofs.eviction_f1_refuted. Qed.
 Print Assumptions eviction_f1_refuted.
+
+(* ---- CLOSED: the byte-level port of treeIterator (Seek, then Next until
+   invalid) yields exactly the specification iterator's sequence on every
+   well-formed tree and every seek key; hence the runner evaluated by the
+   correspondence check ([s_run_p]) refines the abstract ordered map. ---- *)
+Theorem doNext_refines_seek :
+  forall t k, wf t -> valid_bytes k -> port_iter k t = al_seek k (contents t).
+Proof. exact IterLift.doNext_refines_seek. Qed.
+Print Assumptions doNext_refines_seek.
+
+Theorem port_run_refines :
+  forall ops st, Forall sop_valid_p ops -> st_inv st -> s_run_p st ops = s_run st ops.
+Proof. exact IterLift.port_run_refines. Qed.
+Print Assumptions port_run_refines.
+
+Theorem tree_refines_map_port :
+  forall (use_log : bool) ops, Forall sop_valid_p ops ->
+    snd (s_run_p (t_init use_log, []) ops) = snd (a_run a_init ops).
+Proof. exact IterLift.tree_refines_map_port. Qed.
+Print Assumptions tree_refines_map_port.
+
+(* ---- evictions BETWEEN the steps of one doInsert descent (Mkvs/Step.v): the
+   frames are the internal nodes on the Go call stack.  Evictions that do not
+   touch the call stack are invisible; evicting a (still clean) node that is on
+   the stack is a legal cache event and loses the subtree (finding F2). ---- *)
+Theorem insert_eviction_off_path_invisible :
+  forall k v es s, frames_ok (frames_of s) -> legal_run k v s es -> Forall off_path es ->
+    whole k v (irun k v s es) = whole k v s.
+Proof. exact StepProofs.insert_eviction_off_path_invisible. Qed.
+Print Assumptions insert_eviction_off_path_invisible.
+
+Theorem insert_descent_correct :
+  forall k v p es res, legal_run k v (IDown [] 0 p) es -> Forall off_path es ->
+    irun k v (IDown [] 0 p) es = IDone res -> view res = tinsert k v (view p).
+Proof. exact StepProofs.insert_descent_correct. Qed.
+Print Assumptions insert_descent_correct.
+
+Theorem eviction_f2_refuted :
+  (exists res, irun [32] [9] (IDown [] 0 f2_tree) f2_events_ok = IDone res /\
+               contents (view res) = [([0], [1]); ([32], [9]); ([64], [2]); ([128], [3])]) /\
+  legal_run [32] [9] (IDown [] 0 f2_tree) f2_events_bad /\
+  (exists res, irun [32] [9] (IDown [] 0 f2_tree) f2_events_bad = IDone res /\ contents (view res) = []).
+Proof. exact StepProofs.eviction_f2_refuted. Qed.
+Print Assumptions eviction_f2_refuted.
